@@ -13,7 +13,7 @@
 From Coq Require Import NArith List String Bool Arith.
 From V Require Import Base.UString Model.Registry Model.RegistryInit Gen.Regexes Spec.NamingSpec
                       Proofs.RegistryFacts Proofs.NamingFacts Proofs.C19Proofs.
-From V Require Model.SchemaTypes Spec.SchemaRefine Model.RegistryBuilder Proofs.C19Inherit.
+From V Require Model.SchemaTypes Spec.SchemaRefine Model.RegistryBuilder Proofs.C19Inherit Proofs.C19Bridge.
 Import ListNotations.
 
 (* ---------------- tie to the current source ---------------- *)
@@ -277,7 +277,7 @@ Print Assumptions invalid_prop_name_refused.
    what they ask of a table is shown here for every table the builder produces (the part evaluated
    on the generated specification tables is in Props/C19Inherit.v).                              *)
 Module Inherit.
-Import SchemaTypes SchemaRefine RegistryBuilder C19Inherit.
+Import SchemaTypes SchemaRefine RegistryBuilder C19Inherit C19Bridge.
 
 (* property names are distinct, whatever the user passes (OrderedDict) *)
 Theorem custom_table_names_distinct : forall bv k V n xt user, NoDup (names (custom_slots bv k V n xt user)).
@@ -329,6 +329,22 @@ Theorem world_refines_add : forall w sp k V n c c',
   world_refines (world_add w k V n c) (world_add sp k V n c') = true.
 Proof. exact world_refines_add_lemma. Qed.
 Print Assumptions world_refines_add.
+(* registration model and schema world move together: a successful registration, mirrored by
+   world_add of the builder's class, makes the name resolve -- in the registration model to the
+   class id, in the world to that id and from there to the builder's table -- and keeps the two
+   registries knowing the same names *)
+Theorem registered_type_resolves_in_world : forall vt r w bv k V n xt user cn r',
+  dom_agree r w ->
+  Registry.decorate vt r (regreq_of k V n xt user cn) = (r', Registry.Done) ->
+  find_class (wclasses w) (custom_cid cn) = None ->
+  let c := custom_cls bv k V n xt user cn in
+  let w' := world_add w k V n c in
+  Registry.lookup r' (version_of_ver V) (category_of_ckind k) n = Some (custom_cid cn)
+  /\ assoc n (cat_rows k (reg_of w' V)) = Some (custom_cid cn)
+  /\ find_class (wclasses w') (custom_cid cn) = Some c
+  /\ dom_agree r' w'.
+Proof. exact registered_type_resolves_in_world_lemma. Qed.
+Print Assumptions registered_type_resolves_in_world.
 End Inherit.
 
 (* ---------------- the hypotheses are satisfiable ---------------- *)
